@@ -91,6 +91,8 @@ def run(ctx, col: Collector):
             default_cls = defaults.get(param)
             if default_cls is None:
                 raise Unrecognised(f'Database.__init__ default for {param} is not a class', init.node)
+            from ..inline import inlined_info
+            prop = inlined_info(idx, prop, depth=3)
             paths = function_paths(prop.node, unroll=1)
             n_present = n_absent = 0
             for path in paths:
@@ -116,14 +118,45 @@ def run(ctx, col: Collector):
                             f'{cname}.{lang} returns `{norm(v)[:60]}`, not <renderer>.render(self); cannot judge the dispatch', node=last.node, file=prop.file)
                     continue
                 r = v.func.value
-                rexpr = env.get(r.id, r) if isinstance(r, ast.Name) else r
+                rexpr = r
+                for _ in range(6):
+                    if isinstance(rexpr, ast.Name) and rexpr.id in env:
+                        rexpr = env[rexpr.id]
+                    else:
+                        break
+                # a local that holds self.database (`db = self.database`, `db = getattr(self, 'database', None)`) is read as self.database
+                aliases = {nm for nm, val in env.items() if access_path(val) == 'self.database' or (
+                    isinstance(val, ast.Call) and isinstance(val.func, ast.Name) and val.func.id == 'getattr' and len(val.args) == 3
+                    and norm(val.args[0]) == 'self' and isinstance(val.args[1], ast.Constant) and val.args[1].value == 'database'
+                    and isinstance(val.args[2], ast.Constant) and val.args[2].value is None)}
+
+                def unalias(x):
+                    if isinstance(x, tuple):
+                        return tuple(unalias(y) for y in x)
+                    if isinstance(x, list):
+                        return [unalias(y) for y in x]
+                    if isinstance(x, str):
+                        for nm in aliases:
+                            if x == nm:
+                                return 'self.database'
+                            if x.startswith(nm + '.'):
+                                return 'self.database' + x[len(nm):]
+                    return x
+                lits = [unalias(l) for l in lits]
+                rpath = unalias(access_path(rexpr) or '')
+                by_truth = ('truthy', 'self.database') in lits and ('not', ('none', 'self.database')) not in lits
+                if (by_truth or ('not', ('truthy', 'self.database')) in lits) and any(mn in db.methods for mn in ('__bool__', '__len__')):
+                    mn = next(mn for mn in ('__bool__', '__len__') if mn in db.methods)
+                    col.bad('C16-dispatch', f'{cname}.{lang}:presence-test', f'{cname}.{lang} decides "has a database" by the truth value of the Database object, and '
+                            f'Database defines {mn}: a database that is empty (falsy) is treated as absent, so its elements fall back to the default renderer instead of '
+                            f'the configured one', node=last.node, file=prop.file)
                 present = ('not', ('none', 'self.database')) in lits or ('truthy', 'self.database') in lits
                 absent_atoms = {('none', 'self.database'), ('not', ('truthy', 'self.database')),
                                 ('not', ('hasattr', 'self', "'database'"))}
                 absent = any(l in absent_atoms or (l[0] == 'or' and all(d in absent_atoms for d in l[1])) for l in lits)
                 if present and not absent:
                     n_present += 1
-                    ap = access_path(rexpr)
+                    ap = rpath or access_path(rexpr)
                     col.check(ap == f'self.database.{param}', 'C16-dispatch', f'{cname}.{lang}:attached',
                               f'attached element renders through self.database.{param}',
                               f'on the path where the element has a database, {cname}.{lang} uses `{norm(rexpr)}` '
